@@ -19,6 +19,28 @@ for ln in p.stdout.decode("utf-8", "replace").splitlines():
         continue
     if e.get("Action") == "pass" and e.get("Test"):
         passed.add("%s::%s" % (e["Package"], e["Test"]))
+# a test that is missing once is re-run alone (the pinned baseline itself is "stable over 3 runs";
+# timing-sensitive tests such as test/std/sync TestCondBroadcast flake when the machine is overloaded)
+for attempt in range(3):
+    missing = sorted(want - passed)
+    if not missing or len(missing) > 40:
+        break
+    bypkg = {}
+    for m in missing:
+        pk, t = m.split("::")
+        bypkg.setdefault(pk, []).append(t.split("/")[0])
+    for pk, ts in bypkg.items():
+        rel = "./" + pk[len("github.com/goplus/llgo/"):]
+        q = subprocess.run(["go", "test", "-modfile=" + mf, "-json", "-vet=off", "-count=1", "-timeout", "25m", "-p", "1",
+                            "-run", "^(" + "|".join(sorted(set(ts))) + ")$", rel],
+                           cwd=core.REPO, env=env, stdout=subprocess.PIPE, stderr=subprocess.DEVNULL)
+        for ln in q.stdout.decode("utf-8", "replace").splitlines():
+            try:
+                e = json.loads(ln)
+            except ValueError:
+                continue
+            if e.get("Action") == "pass" and e.get("Test"):
+                passed.add("%s::%s" % (e["Package"], e["Test"]))
 w.close()
 missing = sorted(want - passed)
 print("baseline: %d of %d stable tests pass (%d passed in total)" % (len(want & passed), len(want), len(passed)))
